@@ -109,7 +109,7 @@ M("c06-prod", "C06", J, "return np.prod(fs, axis=-1)", "return np.prod(fs[:, 1:]
 M("c06-perm", "C06", J, "                x = np.array(args)[np.argsort(arg_order)].reshape((1, n_dim))\n                return self.pdf(x)\n\n            return integral_func\n\n        # every other variable is integrated", "                x = np.array(args)[arg_order].reshape((1, n_dim))\n                return self.pdf(x)\n\n            return integral_func\n\n        # every other variable is integrated", rules=["C06.argorder"])
 M("c06-delegate", "C06", J, "            return self.distributions[dim].cdf(x)", "            return self.distributions[dim].pdf(x)", rules=["C06.delegate"])
 M("c06-quantile-col", "C06", J, "        x = np.quantile(sample[:, dim], p)", "        x = np.quantile(sample[:, 0], p)", rules=["C06.mc"])
-M("c06-chkfinite", "C06", J, "        x = np.asarray_chkfinite(x)\n        if x.shape[-1] != self.n_dim:", "        x = np.asarray(x)\n        if x.shape[-1] != self.n_dim:", rules=["C06.finite"])
+M("c06-chkfinite", "C06", J, "        x = np.asarray_chkfinite(x)\n        if x.ndim != 2 or x.shape[-1] != self.n_dim:", "        x = np.asarray(x)\n        if x.ndim != 2 or x.shape[-1] != self.n_dim:", rules=["C06.finite"])
 M("c06-cdf-limits", "C06", J, "            integration_limits = [\n                (lower_integration_limits[j], x[i, j]) for j in range(n_dim)\n            ]\n\n            p[i], error = integrate.nquad(integral_func, integration_limits)\n\n        return p\n\n    @abstractmethod", "            integration_limits = [\n                (lower_integration_limits[j], x[i, 0]) for j in range(n_dim)\n            ]\n\n            p[i], error = integrate.nquad(integral_func, integration_limits)\n\n        return p\n\n    @abstractmethod", rules=["C06.argorder"])
 M("c07-cond-col", "C07", J, "                conditioning_values = samples[:, cond_idx]\n                samples[:, i]", "                conditioning_values = samples[:, i - 1]\n                samples[:, i]", rules=["C07.chain"])
 M("c07-drop-rs", "C07", J, "                samples[:, i] = dist.draw_sample(n, random_state=random_state)", "                samples[:, i] = dist.draw_sample(n)", rules=["C07.rng"])
@@ -213,12 +213,12 @@ M("c18-data-dim", "C18", J, "fit_descriptions)\n\n        if data.ndim != 2 or d
 M("c18-data-ndim", "C18", J, "fit_descriptions)\n\n        if data.ndim != 2 or data.shape[-1] != self.n_dim:", "fit_descriptions)\n\n        if data.shape[-1] != self.n_dim:", rules=["C18.guard"], what="original defect D27")
 M("c18-tm-data-ndim", "C18", J, "        data = np.array(data)\n        if data.ndim != 2 or data.shape[-1] != self.n_dim:", "        data = np.array(data)\n        if data.shape[-1] != self.n_dim:", rules=["C18.guard"])
 M("c19-ew-pdf-inplace", "C19", D, "        x_greater_zero = np.where(x > 0, x, np.nan)", "        x = np.asarray(x, dtype=float)\n        x[x <= 0] = np.nan\n        x_greater_zero = x", rules=["C19.noargmut"])
-M("c19-sample-inplace", "C19", C, "        x, y = sample.T\n\n        # Calculate non-exceedance probability.", "        x, y = sample.T\n        x -= 0\n\n        # Calculate non-exceedance probability.", rules=["C19.nomodelwrite"])
-M("c19-model-cache", "C19", J, "        x = np.asarray_chkfinite(x)\n        if x.shape[-1] != self.n_dim:", "        x = np.asarray_chkfinite(x)\n        self._last_x = x\n        if x.shape[-1] != self.n_dim:", rules=["C19.nomodelwrite"])
-M("c19-coords-sort", "C19", U, "    coords = contour.coordinates\n\n    x1 =", "    coords = contour.coordinates\n    coords.sort(axis=0)\n\n    x1 =", rules=["C19.noargmut"])
+M("c19-sample-inplace", "C19", C, "        x, y = np.asarray(sample).T  # a DataFrame or a list of rows is a sample too\n\n        # Calculate non-exceedance probability.", "        x, y = np.asarray(sample).T\n        x -= 0\n\n        # Calculate non-exceedance probability.", rules=["C19.nomodelwrite"])
+M("c19-model-cache", "C19", J, "        x = np.asarray_chkfinite(x)\n        if x.ndim != 2 or x.shape[-1] != self.n_dim:", "        x = np.asarray_chkfinite(x)\n        self._last_x = x\n        if x.ndim != 2 or x.shape[-1] != self.n_dim:", rules=["C19.nomodelwrite"])
+M("c19-coords-sort", "C19", U, "    coords = np.asarray(contour.coordinates, dtype=float)\n\n    x1 =", "    coords = contour.coordinates\n    coords.sort(axis=0)\n\n    x1 =", rules=["C19.noargmut"])
 M("c19-shared-bounds", "C19", PR, '    bounds = [(0, None), (0, None), (None, None)]\n\n    power3 = DependenceFunction(_power3, bounds, latex="$a + b * x^c$")', '    bounds = _SHARED_BOUNDS\n\n    power3 = DependenceFunction(_power3, bounds, latex="$a + b * x^c$")', rules=["C19.getters"])
-M("c19-intersection-inplace", "C19", IX, "    x1 = np.asarray(x1)\n    x2 = np.asarray(x2)", "    x1 = np.asarray(x1)\n    x1[0] = x1[0]\n    x2 = np.asarray(x2)", rules=["C19.noargmut"])
-M("c19-twin-copy", "C19", J, "        x = np.asarray_chkfinite(x)\n        if x.shape[-1] != self.n_dim:", "        x = np.asarray_chkfinite(x).copy()\n        x[0, 0] = x[0, 0]\n        if x.shape[-1] != self.n_dim:", expect="pass")
+M("c19-intersection-inplace", "C19", IX, "    x1 = np.asarray(x1, dtype=float)\n    x2 = np.asarray(x2, dtype=float)", "    x1 = np.asarray(x1, dtype=float)\n    x1[0] = x1[0]\n    x2 = np.asarray(x2, dtype=float)", rules=["C19.noargmut"])
+M("c19-twin-copy", "C19", J, "        x = np.asarray_chkfinite(x)\n        if x.ndim != 2 or x.shape[-1] != self.n_dim:", "        x = np.asarray_chkfinite(x).copy()\n        x[0, 0] = x[0, 0]\n        if x.ndim != 2 or x.shape[-1] != self.n_dim:", expect="pass")
 M("c20-close", "C20", PL, "    y.append(y[0])", "    y.append(x[0])", rules=["C20.contour"])
 M("c20-iso-swap", "C20", PL, "    if swap_axis:\n        tmp = X\n        X = Y\n        Y = tmp", "    if swap_axis:\n        tmp = X\n        Y = tmp", rules=["C20.others"])
 M("c20-fmt", "C20", C, 'fmt="%1.6f",', 'fmt="%1.5f",', rules=["C20.save"])
@@ -375,7 +375,7 @@ M("c16-cache-kept", "C16", J, "        # the sample kept for empirical_cdf belon
 # ------------------------------------------------------------------ round 4, last repairs reverted: D32-D36
 M("c04-or-object-array", "C04", C, "        coords_x = np.array(coords_x, dtype=float)\n        coords_y = np.array(coords_y, dtype=float)\n", "        coords_x = np.array(coords_x, dtype=object)\n        coords_y = np.array(coords_y, dtype=object)\n", rules=["C04.close"], what="original defect D32")
 M("c20-design-not-converted", "C20", PL, "        design_conditions = np.asarray(design_conditions)\n", "", rules=["C20.contour"], what="original defect D33")
-M("c06-pdf-columns", "C06", J, "        if x.shape[-1] != self.n_dim:\n            raise ValueError(\n                \"The dimension of x does not match the dimension of the model. \"", "        if False:\n            raise ValueError(\n                \"The dimension of x does not match the dimension of the model. \"", rules=["C06.chain"], what="original defect D34")
+M("c06-pdf-columns", "C06", J, "        if x.ndim != 2 or x.shape[-1] != self.n_dim:\n            raise ValueError(\n                \"The dimension of x does not match the dimension of the model. \"", "        if False:\n            raise ValueError(\n                \"The dimension of x does not match the dimension of the model. \"", rules=["C06.chain"], what="original defect D34")
 M("c13-log-cancellation", "C13", D, "p_star = np.log10(-np.log1p(-(p ** (1 / delta))))", "p_star = np.log10(-np.log(1 - p ** (1 / delta)))", rules=["C13.formula"], what="original defect D35")
 M("c13-twin-log1p-temp", "C13", D, "        p_star = np.log10(-np.log1p(-(p ** (1 / delta))))", "        tail = p ** (1 / delta)\n        p_star = np.log10(-np.log1p(-tail))", expect="pass")
 M("c06-raw-negative-dim", "C06", J, "        dim = range(self.n_dim)[dim]  # a negative index counts from the last variable\n        if self.conditional_on[dim] is None:\n            # the distribution is not conditional -> it is the marginal\n            return self.distributions[dim].pdf(x)", "        if self.conditional_on[dim] is None:\n            # the distribution is not conditional -> it is the marginal\n            return self.distributions[dim].pdf(x)", rules=["C06.argorder"], what="original defect D36")
@@ -486,3 +486,4 @@ M("c10-empty-data-width", "C10", I, "    def _slice(self, data):\n        if len
 M("c10-twin-empty-data-size", "C10", I, "    def _slice(self, data):\n        if len(data) == 0:\n            # nothing to slice, slice_ reports the missing intervals\n            return [], [], []\n        if self.value_range is None:\n", "    def _slice(self, data):\n        if not len(data) > 0:\n            return [], [], []\n        if self.value_range is None:\n", expect="pass")
 M("c18-parameters-none-conditioner", "C18", J, "            if \"parameters\" in dist_desc and dist_desc.get(\"conditional_on\") is None:\n", "            if \"parameters\" in dist_desc and \"conditional_on\" not in dist_desc:\n", rules=["C18.guard"], what="original defect: 'conditional_on': None with parameters accepted")
 M("c18-marginal-cdf-nan", ["C18", "C06"], J, "        x = np.asarray_chkfinite(x)\n        dim = range(self.n_dim)[dim]  # a negative index counts from the last variable\n        if self.conditional_on[dim] is None:\n            # the distribution is not conditional -> it is the marginal\n            return self.distributions[dim].cdf(x)", "        dim = range(self.n_dim)[dim]  # a negative index counts from the last variable\n        if self.conditional_on[dim] is None:\n            # the distribution is not conditional -> it is the marginal\n            return self.distributions[dim].cdf(x)", rules={"C18": ["C18.shared"], "C06": ["C06.finite"]}, what="original defect: marginal_cdf([nan]) = 0")
+M("c06-pdf-3d-points", "C06", J, "        if x.ndim != 2 or x.shape[-1] != self.n_dim:\n            raise ValueError(\n                \"The dimension of x does not match the dimension of the model. \"", "        if x.shape[-1] != self.n_dim:\n            raise ValueError(\n                \"The dimension of x does not match the dimension of the model. \"", rules=["C06.chain"], what="original defect: a 3-D array of points multiplies uninitialised memory")
